@@ -549,6 +549,7 @@ func main() {
 	}
 	wg.Wait()
 	fuzzStreams(r, env, names)
+	afterFailedPhase1(r, env)
 	if hangs.Load() >= 3 {
 		r.Set("sweep_stopped_early_after_hangs", true)
 	}
@@ -1081,4 +1082,49 @@ func fuzzStreams(r *mon.Run, env *plug.Env, names []string) {
 		}(w)
 	}
 	wg.Wait()
+}
+
+// ---- a conversation after a failed one ----------------------------------------
+
+// afterFailedPhase1: what the client sends first must be complete and well
+// formed for EVERY conversation of a process, also for the one that follows a
+// conversation whose phase-1 write failed because the plugin went away without
+// reading (phase 1 larger than the pipe buffer makes that deterministic).
+// Conversation A: a plugin that exits at once, Unwrap with a very large
+// stanza. Conversation B (same goroutine, right after): an ordinary plugin;
+// its recorded phase 1 is checked as usual.
+func afterFailedPhase1(r *mon.Run, env *plug.Env) {
+	quit, rec := "quit-early", "rec-after"
+	env.Install(quit)
+	env.Install(rec)
+	big := []*age.Stanza{{Type: "huge", Args: []string{"x"}, Body: bytes.Repeat([]byte{0x69}, 192*1024)}}
+	n := r.Pick(12, 60)
+	for i := 0; i < n; i++ {
+		// A: the plugin exits without reading anything
+		env.SetScript(quit, &plug.Script{SkipPhase: true, End: "exit"})
+		ui := buildUI(uiCfg{1, 1, 1}, &[]uiCall{}, &sync.Mutex{}, false)
+		idA, err := plugin.NewIdentity(refage.Bech32Encode("AGE-PLUGIN-"+strings.ToUpper(quit)+"-", []byte{byte(i)}), ui)
+		if err != nil {
+			r.Inconclusive("afterFailedPhase1: %v", err)
+			return
+		}
+		_, errA := idA.Unwrap(big)
+		if errA == nil {
+			r.Violate("final-error-missing:plugin-exited-without-reading", "Unwrap succeeded although the plugin exited without reading or answering", nil)
+		}
+		env.Transcript(quit)
+		// B: an ordinary conversation right after, alternately on either machine
+		c := &conv{machine: i % 2, ui: uiCfg{1, 1, 1}, id: 900000 + i}
+		if c.machine == recipientMachine {
+			c.msgs = []msg{recipientAlphabet()[0], terminals[0]}
+		} else {
+			c.msgs = []msg{identityAlphabet()[0], terminals[0]}
+		}
+		r.Count("conversations_after_a_failed_phase1", 1)
+		before := r.Evals()
+		runConv(r, env, rec, c)
+		if r.Evals() == before {
+			r.Inconclusive("afterFailedPhase1: follow-up conversation did not run")
+		}
+	}
 }
